@@ -466,6 +466,19 @@ def rule_k5(F):
     return r
 
 
+def rule_k6(F):
+    """No built-in writes past the storage of a list: `reserve(added)` sizes the new buffer from the required total `len + added`
+    (shared with C15.M15).  A buffer sized from `added` alone is overrun by `concat` / `+` of a short and a longer list - heap
+    corruption aborts the host."""
+    from . import c15
+    r = c15.rule_m15(F)
+    r.rule = "C10.K6"
+    r.desc = "RawList::reserve sizes the new buffer from len + added (no heap overrun by concat of a short and a longer list)"
+    for v in r.violations:
+        v.rule = "C10.K6"
+    return r
+
+
 def rules(ctx):
     F = ctx["F"]
-    return [rule_k1(F), rule_k2(F), rule_k3(F), rule_k4(F), rule_k5(F)]
+    return [rule_k1(F), rule_k2(F), rule_k3(F), rule_k4(F), rule_k5(F), rule_k6(F)]
